@@ -21,6 +21,7 @@ Inductive case :=
 | CDb (rows : list AnnotDb.row)
 | CSeqDb (k : kind) (v : view) (p : list Z) (rows : list AnnotDb.row)
 | CMolType (label : list Z)
+| CAlphabet (motifs : list (list Z)) (gap : option (list Z)) (label : list Z)
 | CDispatch (reg : list (list Z * list Z)) (types : list (list Z))
 | CRegistry
 | CExpected.
@@ -164,6 +165,7 @@ Definition run_case (c : case) : val :=
   | CDb rows => reencode (ODb [0; 1] rows)
   | CSeqDb k v p rows => reencode (OSeqDb (mkSeq (mkS v p k true) (Some (zs "s")) []) [0; 1] rows)
   | CMolType l => reencode (OMolType l)
+  | CAlphabet ms g l => reencode (OAlphabet (mkAlpha ms g l))
   | CDispatch reg types =>
       let r := map (fun kf => (fst kf, DOther (snd kf))) reg in
       VL (map (fun t => match dispatch r t with Some f => VS (decoder_name f) | None => VN end) types)
